@@ -1464,8 +1464,10 @@ class Container:
         if quantity_unit not in ('L', 'g', 'mol'):
             raise ValueError("We can only fill to mass or volume.")
 
-        current_quantity = sum(Unit.convert(substance, f"{value} {config.moles_storage_unit}", quantity_unit)
-                               for substance, value in self.contents.items() if not substance.is_enzyme())
+        current_quantity = sum(Unit.convert_from(substance, value,
+                                                 'U' if substance.is_enzyme() else config.moles_storage_unit,
+                                                 quantity_unit)
+                               for substance, value in self.contents.items())
 
         required_quantity = quantity - current_quantity
         if round(required_quantity, config.internal_precision) < 0:
